@@ -493,6 +493,11 @@ pub fn corpus_specs(dir: &str) -> Vec<CorpusSpec> {
       if p.extension().and_then(|s| s.to_str()) != Some("txt") {
         continue;
       }
+      if let Some(only) = crate::runner::only_corpus_file() {
+        if only != p.display().to_string() {
+          continue;
+        }
+      }
       let Ok(text) = std::fs::read_to_string(&p) else { continue };
       let mut files = BTreeMap::new();
       let mut current: Option<(String, String)> = None;
@@ -640,6 +645,7 @@ pub fn corpus_layer(id: &str, f: impl Fn(&ModuleGraph, &mut Outcome)) -> ExtraRe
   let mut sigs = BTreeSet::new();
   let mut with_output = 0u64;
   for spec in corpus_specs("/repo/tests/specs/graph/fast_check") {
+    crate::runner::set_current_item(&serde_json::json!({"corpus_file": spec.file}));
     let r = std::panic::catch_unwind(std::panic::AssertUnwindSafe(|| corpus_graph(&spec)));
     let Ok(Some(graph)) = r else { continue };
     let n = emitted_modules(&graph).len();
